@@ -214,8 +214,8 @@ func vpReps(sym, nat int) int { return nat }
 // vpNoGrowth: after <= before + slack. Native measurements get 256 KiB of additional slack.
 func vpNoGrowth(before, after, slack uint64) bool { return after <= before+slack+256<<10 }
 
-// vpGCNative: native replays of C18 force collections between operations.
-var vpGCNative = true
+// vpGCNative: native replays of C18 force collections between operations (the executor answers false).
+func vpGCNative() bool { return true }
 
 // ---- C16 native confirmation: the two sides run in goroutines under the race detector ----
 
